@@ -98,6 +98,8 @@ pub struct Plan {
     pub workers: usize,
     /// number of listeners the server is given (connection `idx` talks to listener `idx % listeners`)
     pub listeners: usize,
+    /// a second `shutdown(same mode)` on a clone of the handle, that many ms after the first call
+    pub second_call_after_ms: Option<u64>,
     /// Some: Graceful{timeout}, None: Forced
     pub timeout_ms: Option<u64>,
     pub call_at_ms: u64,
@@ -111,7 +113,8 @@ impl Plan {
     }
     pub fn to_json(&self) -> Value {
         json!({
-            "hseed": self.hseed, "workers": self.workers, "listeners": self.listeners, "mode": self.mode(), "timeout_ms": self.timeout_ms,
+            "hseed": self.hseed, "workers": self.workers, "listeners": self.listeners, "second_call_after_ms": self.second_call_after_ms,
+            "mode": self.mode(), "timeout_ms": self.timeout_ms,
             "call_at_ms": self.call_at_ms,
             "delays": self.delays.iter().map(|d| json!({"point": d.point, "who": d.who, "nth": d.nth, "block": d.block, "us": d.micros})).collect::<Vec<_>>(),
             "conns": self.conns.iter().map(|c| json!({
@@ -329,5 +332,7 @@ pub fn gen_plan(hseed: u64) -> Plan {
     }
     // drawn from its own stream, so that the rest of the plan is the same as before this knob existed
     let listeners = if Rng::new(mix(hseed, 0x11_57, 2)).chance(30) { 2 } else { 1 };
-    Plan { hseed, workers, listeners, timeout_ms, call_at_ms: call, conns, delays }
+    let mut r2 = Rng::new(mix(hseed, 0x2_CA11, 3));
+    let second_call_after_ms = if r2.chance(30) { Some(r2.range(5, 60)) } else { None };
+    Plan { hseed, workers, listeners, second_call_after_ms, timeout_ms, call_at_ms: call, conns, delays }
 }
